@@ -35,12 +35,18 @@ Definition arr_leaf_k (k : ikind) (p : schema) : Prop :=
   exists c it, p = Sch c [] None false (Some it) [] [] /\ c_types c = [SArray] /\ c_ref c = None /\ c_enum c = None /\ c_default c = None /\ plain_item k it.
 Definition arr_leaf (p : schema) : Prop := exists k, arr_leaf_k k p.
 
+(* maps: a property-less object whose additionalProperties is a plain string / number / boolean schema *)
+Definition map_leaf_k (k : ikind) (p : schema) : Prop :=
+  exists c a, p = Sch c [] (Some a) false None [] [] /\ c_types c = [SObject] /\ c_ref c = None /\ c_enum c = None /\ c_default c = None /\ c_required c = [] /\ plain_item k a.
+Definition map_leaf (p : schema) : Prop := exists k, map_leaf_k k p.
+Definition map_value (x : json) : Prop := forall kv, x = JObj kv -> forall y, In y kv -> snd y <> JNull.
+
 (* string enums (C08): a typed string schema that lists its values *)
 Definition enum_leaf (p : schema) : Prop :=
   exists c vs, p = Sch c [] None false None [] [] /\ c_types c = [SString] /\ c_ref c = None /\ c_enum c = Some (map JStr vs) /\ vs <> [] /\
                c_default c = None /\ c_format c = None /\ c_min_len c = 0 /\ c_max_len c = 0 /\ c_pattern c = None.
 
-Definition leaf (p : schema) : Prop := str_leaf p \/ int_leaf p \/ bool_leaf p \/ num_leaf p \/ arr_leaf p \/ enum_leaf p.
+Definition leaf (p : schema) : Prop := str_leaf p \/ int_leaf p \/ bool_leaf p \/ num_leaf p \/ arr_leaf p \/ enum_leaf p \/ map_leaf p.
 
 Lemma rmap_ev_strs (vs : list str) : rmap (fun v => match ev_of_json v with Some e => Done e | None => GUnmod end) (map JStr vs) = Done (map EVStr vs).
 Proof. induction vs as [|v r IH]; [reflexivity|]. cbn [map rmap ev_of_json rbind]. rewrite IH. reflexivity. Qed.
@@ -247,7 +253,7 @@ Fixpoint sobj (n : nat) (s : schema) : Prop :=
 Fixpoint dok (n : nat) (s : schema) (kv : list (str * json)) : Prop :=
   NoDup (map fst kv) /\
   forall k p x, In (k, p) (s_props s) -> lookup k kv = Some x ->
-    x <> JNull /\ (str_leaf p -> forall s0, x = JStr s0 -> utf8_len s0 = length s0) /\ (int_leaf p -> int_value x) /\ (arr_leaf p -> arr_value x) /\
+    x <> JNull /\ (str_leaf p -> forall s0, x = JStr s0 -> utf8_len s0 = length s0) /\ (int_leaf p -> int_value x) /\ (arr_leaf p -> arr_value x) /\ (map_leaf p -> map_value x) /\
     match n with
     | O => True
     | S m => forall kv', x = JObj kv' ->
@@ -313,6 +319,70 @@ Proof.
   destruct f as [|f]; [discriminate|]. rewrite (gen_plain_item f self _ k it Hit) in H. cbn in H. inversion H. split; reflexivity.
 Qed.
 
+Lemma gen_item_mtype f self sc k it : plain_item k it -> gen (S f) MType self false it sc = Done (item_go k, c_bounds (s_con it)).
+Proof.
+  intros (c & -> & Hr & He & Hd & Hf & Hmn & Hmx & Hp & Hm & Hb & Ht). cbn [Gen.gen s_con s_any_of s_all_of]. rewrite He, Hr. unfold determine_type. rewrite ?Ht.
+  destruct k; cbn; unfold primitive; rewrite ?Hf; reflexivity.
+Qed.
+
+Lemma gen_map_leaf f self sc k p ty bp : map_leaf_k k p -> gen (S f) MInline self false p sc = Done (ty, bp) ->
+  ty = TNamed sc (TMap (item_go k)) None /\ bp = c_bounds (s_con p).
+Proof.
+  intros (c & a & -> & Ht & Hr & He & _ & _ & Hit) H. cbn [Gen.gen s_con s_any_of s_all_of] in H. rewrite He, Hr, Ht in H. unfold determine_type in H. rewrite Ht in H. cbn in H.
+  destruct f as [|f]; [discriminate|]. cbn [Gen.gen s_con] in H. rewrite He in H.
+  destruct f as [|f]; [discriminate|]. cbn [Gen.gen s_con s_props s_all_of s_any_of s_addl rbind] in H. rewrite He, Hr in H. unfold determine_type in H. rewrite ?Ht in H. cbn [s_props s_all_of s_any_of s_addl] in H.
+  destruct f as [|f]; [discriminate|]. rewrite (gen_item_mtype f self _ k a Hit) in H. cbn [rbind fst] in H.
+  unfold declare in H. cbn [is_named_ty] in H. rewrite Hom in H. inversion H. split; reflexivity.
+Qed.
+
+Lemma valid_map_leaf fv k p x : map_leaf_k k p -> valid (S (S fv)) p x =
+  match x with JObj kv => forallb (fun y => item_spec k (snd y)) kv | _ => false end.
+Proof.
+  intros (c & a & -> & Ht & Hr & He & _ & Hq & Hit). set (g := S fv). cbn [Valid.valid s_con s_all_of s_any_of s_props s_addl s_addl_false]. rewrite Hr, Ht, He, Hq. cbn [type_ok existsb forallb].
+  destruct x; cbn [type_matches orb andb]; try reflexivity. rewrite ?andb_true_r, ?orb_false_r. cbn [andb lookup].
+  apply forallb_ext_in. intros y _. exact (valid_plain_item fv k a (snd y) Hit).
+Qed.
+
+Lemma omap_map_items fd k kv : (forall y, In y kv -> snd y <> JNull) ->
+  is_ok (omap (fun y : str * json => obind (dec (S fd) (item_go k) (snd y)) (fun v => Ok (fst y, v))) kv) = forallb (fun y => item_spec k (snd y)) kv /\
+  (omap (fun y : str * json => obind (dec (S fd) (item_go k) (snd y)) (fun v => Ok (fst y, v))) kv <> Crash) /\
+  (omap (fun y : str * json => obind (dec (S fd) (item_go k) (snd y)) (fun v => Ok (fst y, v))) kv <> NoFuel).
+Proof.
+  induction kv as [|[k0 y] r IH]; intros Hn; [cbn; repeat split; discriminate|].
+  assert (Hy : y <> JNull) by (apply (Hn (k0, y)); left; reflexivity).
+  destruct (IH (fun z Hz => Hn z (or_intror Hz))) as (I1 & I2 & I3).
+  cbn [omap snd fst forallb]. rewrite (dec_item fd k y Hy).
+  destruct k, y; try contradiction; cbn [obind item_spec andb is_ok]; try (repeat split; discriminate);
+    (destruct (omap _ r) as [vs| | |]; cbn [obind is_ok] in *; try contradiction; (split; [exact I1|split; discriminate])).
+Qed.
+
+Lemma map_field fd fv c self fname k ik p kv sc :
+  map_leaf_k ik p -> fname <> [] ->
+  match lookup k kv with
+  | Some x => x <> JNull -> map_value x ->
+      field_ok (dec (S (S (S fd)))) zero (default_val env dv_fuel) kv (pair_of (make_field defs c self fname k p (TNamed sc (TMap (item_go ik)) None) (c_bounds (s_con p)))) = valid (S (S fv)) p x
+  | None => mem k (c_required c) = false ->
+      field_ok (dec (S (S (S fd)))) zero (default_val env dv_fuel) kv (pair_of (make_field defs c self fname k p (TNamed sc (TMap (item_go ik)) None) (c_bounds (s_con p)))) = true
+  end.
+Proof.
+  intros Hleaf Hn. destruct (lookup k kv) as [x|] eqn:Hl.
+  - intros Hnull Hmv. rewrite (valid_map_leaf fv ik p x Hleaf). destruct Hleaf as (pc & a & -> & Ht & Hr & He & Hd & Hq & Hit). unfold make_field, pair_of. cbn [s_con]. rewrite Hd.
+    assert (Hdec : dec (S (S (S fd))) (TNamed sc (TMap (item_go ik)) None) x =
+                   match x with JNull => Ok GNil | JObj kv0 => obind (omap (fun y : str * json => obind (dec (S fd) (item_go ik) (snd y)) (fun v => Ok (fst y, v))) kv0) (fun m => Ok (GM m)) | _ => Err end) by reflexivity.
+    assert (Hcore : forall fl, f_json fl = k -> f_ty fl = TNamed sc (TMap (item_go ik)) None -> f_name fl = fname ->
+              field_ok (dec (S (S (S fd)))) zero (default_val env dv_fuel) kv (fl, []) =
+              match x with JObj kv0 => forallb (fun y => item_spec ik (snd y)) kv0 | _ => false end).
+    { intros fl Hj Hty Hnm. unfold field_ok. cbn [fst snd]. rewrite Hj, Hty, Hl, Hdec.
+      destruct x as [| | | | |kv0]; try contradiction; try reflexivity.
+      destruct (omap_map_items fd ik kv0 (Hmv kv0 eq_refl)) as (I1 & I2 & I3). rewrite <- I1.
+      destruct (omap _ kv0); cbn [obind is_ok value_checks forallb]; reflexivity. }
+    destruct (mem k (c_required c)).
+    + apply Hcore; reflexivity.
+    + cbn [nillable_ty]. apply Hcore; reflexivity.
+  - intros Hm. destruct Hleaf as (pc & a & -> & Ht & Hr & He & Hd & Hq & Hit). unfold make_field, pair_of. cbn [s_con]. rewrite Hd, Hm. cbn [nillable_ty].
+    unfold field_ok. cbn [fst snd f_json f_ty f_name field_validators]. rewrite Hl. reflexivity.
+Qed.
+
 Lemma dec_tenum fd sc es x : dec (S (S fd)) (TEnum sc TString false es) x =
   obind (dec (S fd) TString x) (fun v => if existsb (enum_eq TString v) es then Ok v else Err).
 Proof. reflexivity. Qed.
@@ -344,13 +414,14 @@ Qed.
 
 Lemma leaf_default_none p : leaf p -> c_default (s_con p) = None.
 Proof.
-  intros [Hl|[Hl|[Hl|[Hl|[Hl|Hl]]]]].
+  intros [Hl|[Hl|[Hl|[Hl|[Hl|[Hl|Hl]]]]]].
   - destruct Hl as (c & -> & _ & _ & _ & Hd & _); exact Hd.
   - destruct Hl as (c & m & -> & _ & _ & _ & Hd & _); exact Hd.
   - destruct Hl as (c & -> & _ & _ & _ & Hd); exact Hd.
   - destruct Hl as (c & -> & _ & _ & _ & Hd & _); exact Hd.
   - destruct Hl as (ik & c & it & -> & _ & _ & _ & Hd & _); exact Hd.
   - destruct Hl as (c & vs & -> & _ & _ & _ & _ & Hd & _); exact Hd.
+  - destruct Hl as (ik & c & a & -> & _ & _ & _ & Hd & _); exact Hd.
 Qed.
 
 Lemma ref_default_none p x : ref_prop p x -> c_default (s_con p) = None.
@@ -372,7 +443,7 @@ Lemma level_with_leaves f fd fv self sub s scope t bb kv (other : schema -> Prop
   (forall k p, In (k, p) (s_props s) -> leaf p \/ (other p /\ c_default (s_con p) = None)) ->
   NoDup (map fst kv) ->
   (forall k p x, In (k, p) (s_props s) -> lookup k kv = Some x ->
-     x <> JNull /\ (str_leaf p -> forall s0, x = JStr s0 -> utf8_len s0 = length s0) /\ (int_leaf p -> int_value x) /\ (arr_leaf p -> arr_value x)) ->
+     x <> JNull /\ (str_leaf p -> forall s0, x = JStr s0 -> utf8_len s0 = length s0) /\ (int_leaf p -> int_value x) /\ (arr_leaf p -> arr_value x) /\ (map_leaf p -> map_value x)) ->
   (forall fname k p ty bp, In (fname, (k, p)) (prop_names idf (s_props s)) -> In (k, p) (s_props s) -> other p -> fname <> [] ->
      gen (S f) MInline self false p (scope ++ fname) = Done (ty, bp) ->
      match lookup k kv with
@@ -389,7 +460,7 @@ Proof.
   - intros fname k p ty bp Hin Hgen.
     assert (Hinp : In (k, p) (s_props s)) by (unfold prop_names in Hin; apply in_combine_r in Hin; rewrite sort_props_In in Hin; exact Hin).
     pose proof (Hne _ _ Hin) as Hfn.
-    destruct (Hprops k p Hinp) as [[Hl|[Hl|[Hl|[Hl|[Hl|Hl]]]]]|[Hoth _]].
+    destruct (Hprops k p Hinp) as [[Hl|[Hl|[Hl|[Hl|[Hl|[Hl|Hl]]]]]]|[Hoth _]].
     + rewrite (gen_str_leaf idf cf defs f self _ p Hl) in Hgen. inversion Hgen; subst ty bp.
       destruct (lookup k kv) as [x|] eqn:El.
       * destruct (Hval k p x Hinp El) as [Hnn [Hstr _]]. apply str_field_present; [exact Hl|exact Hfn|exact El|split; [exact Hnn|exact (Hstr Hl)]].
@@ -411,12 +482,17 @@ Proof.
     + pose proof Hl as [ik Hlk]. destruct (gen_arr_leaf f self _ ik p ty bp Hlk Hgen) as [-> ->].
       pose proof (arr_field (S fd) fv (s_con s) self fname k ik p kv Hlk Hfn) as Hb.
       destruct (lookup k kv) as [x|] eqn:El.
-      * destruct (Hval k p x Hinp El) as [Hnn [_ [_ Har]]]. exact (Hb Hnn (Har Hl)).
+      * destruct (Hval k p x Hinp El) as [Hnn [_ [_ [Har _]]]]. exact (Hb Hnn (Har Hl)).
       * exact Hb.
     + destruct (gen_enum_leaf f self _ p ty bp Hl Hgen) as (vs & Hev & -> & ->).
       pose proof (enum_field fd (S fv) (s_con s) self fname k p vs kv (scope ++ fname) Hl Hev Hfn) as Hb.
       destruct (lookup k kv) as [x|] eqn:El.
       * destruct (Hval k p x Hinp El) as [Hnn _]. exact (Hb Hnn).
+      * exact Hb.
+    + pose proof Hl as [ik Hlk]. destruct (gen_map_leaf f self _ ik p ty bp Hlk Hgen) as [-> ->].
+      pose proof (map_field fd fv (s_con s) self fname k ik p kv (scope ++ fname) Hlk Hfn) as Hb.
+      destruct (lookup k kv) as [x|] eqn:El.
+      * destruct (Hval k p x Hinp El) as [Hnn [_ [_ [_ Hmv]]]]. exact (Hb Hnn (Hmv Hl)).
       * exact Hb.
     + exact (Hother fname k p ty bp Hin Hinp Hoth Hfn Hgen).
 Qed.
@@ -469,20 +545,24 @@ Proof. intros (c & -> & Hr & _) Hl. cbn [Valid.valid s_con]. rewrite Hr, Hl. ref
 Lemma sobj_facts n s : sobj n s -> plain_object s /\ c_types (s_con s) = [SObject] /\ s_addl s = None.
 Proof. destruct n; cbn [sobj]; intros (Pp & Pty & Pa & _); (split; [exact Pp|split; [exact Pty|exact Pa]]). Qed.
 
-Lemma leaf_not_object p : leaf p -> c_types (s_con p) = [SObject] -> False.
+Lemma leaf_not_object p : leaf p -> plain_object p -> c_types (s_con p) = [SObject] -> False.
 Proof.
-  intros [Hl|[Hl|[Hl|[Hl|[Hl|Hl]]]]] Pty;
-    [destruct Hl as (c0 & -> & Ht & _)|destruct Hl as (c0 & m0 & -> & Ht & _)|destruct Hl as (c0 & -> & Ht & _)|destruct Hl as (c0 & -> & Ht & _)|destruct Hl as (ik0 & c0 & it0 & -> & Ht & _)
-    |destruct Hl as (c0 & vs0 & -> & Ht & _)];
-    cbn [s_con] in Pty; rewrite Ht in Pty; discriminate.
+  intros Hl (_ & _ & _ & Hprops & _) Pty. destruct Hl as [Hl|[Hl|[Hl|[Hl|[Hl|[Hl|Hl]]]]]].
+  - destruct Hl as (c0 & -> & Ht & _). cbn [s_con] in Pty; rewrite Ht in Pty; discriminate.
+  - destruct Hl as (c0 & m0 & -> & Ht & _). cbn [s_con] in Pty; rewrite Ht in Pty; discriminate.
+  - destruct Hl as (c0 & -> & Ht & _). cbn [s_con] in Pty; rewrite Ht in Pty; discriminate.
+  - destruct Hl as (c0 & -> & Ht & _). cbn [s_con] in Pty; rewrite Ht in Pty; discriminate.
+  - destruct Hl as (ik0 & c0 & it0 & -> & Ht & _). cbn [s_con] in Pty; rewrite Ht in Pty; discriminate.
+  - destruct Hl as (c0 & vs0 & -> & Ht & _). cbn [s_con] in Pty; rewrite Ht in Pty; discriminate.
+  - destruct Hl as (ik0 & c0 & a0 & -> & _). apply Hprops. reflexivity.
 Qed.
 
 Lemma leaf_not_ref p x : leaf p -> ref_prop p x -> False.
 Proof.
   intros Hl (c & E & Hr & _). subst p.
-  destruct Hl as [Hl|[Hl|[Hl|[Hl|[Hl|Hl]]]]];
+  destruct Hl as [Hl|[Hl|[Hl|[Hl|[Hl|[Hl|Hl]]]]]];
     [destruct Hl as (c0 & E & _ & Hr0 & _)|destruct Hl as (c0 & m0 & E & _ & Hr0 & _)|destruct Hl as (c0 & E & _ & Hr0 & _)|destruct Hl as (c0 & E & _ & Hr0 & _)|destruct Hl as (ik0 & c0 & it0 & E & _ & Hr0 & _)
-    |destruct Hl as (c0 & vs0 & E & _ & Hr0 & _)];
+    |destruct Hl as (c0 & vs0 & E & _ & Hr0 & _)|destruct Hl as (ik0 & c0 & a0 & E & _ & Hr0 & _)];
     inversion E; subst; congruence.
 Qed.
 
@@ -503,7 +583,7 @@ Proof.
     cbn [fuelG fuelD fuelV] in *.
     apply (level_with_leaves a b c self sub s scope t bb kv (fun _ => False)); try assumption.
     + intros k p Hin. destruct (Hprops k p Hin) as [Hl|[]]. left; exact Hl.
-    + intros k p x Hin Hl. destruct (Hval k p x Hin Hl) as (H1 & H2 & H3 & H4 & _). split; [exact H1|split; [exact H2|split; [exact H3|exact H4]]].
+    + intros k p x Hin Hl. destruct (Hval k p x Hin Hl) as (H1 & H2 & H3 & H4 & H5 & _). split; [exact H1|split; [exact H2|split; [exact H3|split; [exact H4|exact H5]]]].
     + intros fname k p ty bp _ _ [].
   - (* depth m+1 *)
     cbn [sobj] in Hs. destruct Hs as (Hp & Hty & Ha & Haf & Np & Hreq & Nn & Hne & Hprops).
@@ -513,21 +593,21 @@ Proof.
     apply (level_with_leaves (fuelG m a) fdx (S fv') self sub s scope t bb kv (nested_or_ref m)); try assumption.
     + intros k p Hin. destruct (Hprops k p Hin) as [Hl|[[Hn Hd]|Hr]]; [left; exact Hl|right; split; [left; exact Hn|exact Hd]|].
       right. split; [right; exact Hr|]. destruct Hr as (x & d & u & a0 & b0 & Hrp & _). exact (ref_default_none p x Hrp).
-    + intros k p x Hin Hl. destruct (Hval k p x Hin Hl) as (H1 & H2 & H3 & H4 & _). split; [exact H1|split; [exact H2|split; [exact H3|exact H4]]].
+    + intros k p x Hin Hl. destruct (Hval k p x Hin Hl) as (H1 & H2 & H3 & H4 & H5 & _). split; [exact H1|split; [exact H2|split; [exact H3|split; [exact H4|exact H5]]]].
     + intros fname k p ty bp Hin Hinp Hother Hfn Hgen. rewrite <- Hfv, <- Hfd.
       destruct Hother as [Hnest|(x & d & u & a0 & b0 & Hrp & Hld & Hls & Hsd & Hidf & Hlu & Hgd)].
       * (* an object written inline: one level down *)
         pose proof (sobj_facts m p Hnest) as (Pp & Pty & Pa). pose proof Pp as (Pe & Pr & _ & _ & Pall & Pany).
         assert (Hdn : c_default (s_con p) = None).
         { destruct (Hprops k p Hinp) as [Hl|[[_ Hd]|(x & d & u & a0 & b0 & Hrp & _)]];
-            [exfalso; exact (leaf_not_object p Hl Pty)|exact Hd|exact (ref_default_none p x Hrp)]. }
+            [exfalso; exact (leaf_not_object p Hl Pp Pty)|exact Hd|exact (ref_default_none p x Hrp)]. }
         rewrite (gen_inline_object_eq idf cf defs _ self false p (scope ++ fname) Pe Pr Pall Pany Pty) in Hgen.
         assert (Hscn : scope ++ fname <> []) by (intros E; apply app_eq_nil in E; destruct E as [_ E]; exact (Hfn E)).
         assert (Hshape : exists fs plan, ty = TStruct (scope ++ fname) fs plan).
         { destruct m as [|m']; cbn [fuelG] in Hgen; exact (declared_struct_shape _ self false p (scope ++ fname) ty bp Pp Pa Hgen). }
         destruct Hshape as (fs & plan & ->).
         destruct (lookup k kv) as [x|] eqn:El; [|intros Hm; apply nested_field_absent; assumption].
-        destruct (Hval k p x Hinp El) as (Hnn & _ & _ & _ & Hdeep).
+        destruct (Hval k p x Hinp El) as (Hnn & _ & _ & _ & _ & Hdeep).
         rewrite (nested_field_present _ (s_con s) self fname k p _ fs plan bp kv x Hdn Hfn El Hnn).
         destruct x as [| | | | |kv']; try contradiction;
           try (rewrite dec_struct_type by (try discriminate; intros; discriminate); symmetry; rewrite fuelV_Sc; destruct (fuelV_SS m (S c)) as [y ->];
@@ -541,7 +621,7 @@ Proof.
         destruct (fuelG_SSS m a) as [g Hgm]. rewrite Hgm in Hgen.
         pose proof (gen_ref_prop g self (scope ++ fname) p x d ty bp Hrp Hld Pd Pdty Hgen) as ->.
         destruct (lookup k kv) as [v|] eqn:El; [|intros Hm; exact (ref_field_absent _ (s_con s) self fname k p x d bp kv Hrp Hld Pd El Hm)].
-        destruct (Hval k p v Hinp El) as (Hnn & _ & _ & _ & Hdeep).
+        destruct (Hval k p v Hinp El) as (Hnn & _ & _ & _ & _ & Hdeep).
         rewrite (ref_field_present _ (s_con s) self fname k p x d u bp kv v Hrp Hld Pd Hlu Hfn El Hnn).
         rewrite (valid_ref_prop _ p x d v Hrp Hls).
         pose proof Pd as (_ & Pr & _).
@@ -602,16 +682,21 @@ Proof.
   assert (Hnoarr : forall k p, In (k, p) (s_props ex_outer) \/ In (k, p) (s_props ex_inner) -> ~ arr_leaf p).
   { intros k p Hin (ik & c & it & E & Ht & _). subst p. unfold ex_outer, ex_inner, LevelP.ex_schema, ex_leaf in Hin. cbn [s_props] in Hin.
     destruct Hin as [[Hin|[Hin|[]]]|[Hin|[Hin|[]]]]; inversion Hin. }
+  assert (Hnomap : forall k p, In (k, p) (s_props ex_outer) \/ In (k, p) (s_props ex_inner) -> ~ map_leaf p).
+  { intros k p Hin (ik & c & a & E & Ht & _). subst p. unfold ex_outer, ex_inner, LevelP.ex_schema, ex_leaf in Hin. cbn [s_props] in Hin.
+    destruct Hin as [[Hin|[Hin|[]]]|[Hin|[Hin|[]]]]; inversion Hin. }
   intros Nk H. cbn [dok]. split; [exact Nk|]. intros k p x Hin Hl. destruct (H k x Hl) as (H1 & H2 & H3).
   split; [exact H1|]. split; [intros _; exact H2|]. split; [intros Hi; exfalso; exact (Hnoint k p (or_introl Hin) Hi)|].
   split; [intros Hi; exfalso; exact (Hnoarr k p (or_introl Hin) Hi)|].
+  split; [intros Hi; exfalso; exact (Hnomap k p (or_introl Hin) Hi)|].
   intros kv' ->. split; [|intros y d (c0 & E & Hr & _) _; exfalso; subst p; unfold ex_outer, ex_inner, LevelP.ex_schema, ex_leaf in Hin; cbn [s_props] in Hin;
                          destruct Hin as [Hin|[Hin|[]]]; inversion Hin; subst; discriminate].
   intros _. destruct (H3 kv' eq_refl) as [Nk' H']. split; [exact Nk'|]. intros k' p' x' Hin' Hl'. destruct (H' k' x' Hl') as (G1 & G2).
   assert (Hin2 : In (k', p') (s_props ex_inner)).
   { destruct Hin as [Hin|[Hin|[]]]; inversion Hin; subst p; [exact Hin'|destruct Hin']. }
   split; [exact G1|]. split; [intros _; exact G2|]. split; [intros Hi; exfalso; exact (Hnoint k' p' (or_intror Hin2) Hi)|].
-  split; [intros Hi; exfalso; exact (Hnoarr k' p' (or_intror Hin2) Hi)|exact I].
+  split; [intros Hi; exfalso; exact (Hnoarr k' p' (or_intror Hin2) Hi)|].
+  split; [intros Hi; exfalso; exact (Hnomap k' p' (or_intror Hin2) Hi)|exact I].
 Qed.
 
 Example nested_inhabited :
@@ -670,7 +755,8 @@ Proof.
   - intros (c & E & Ht & _). destruct Hp as [-> | ->]; inversion E; subst c; discriminate.
   - split.
     + intros (c & m & E & Ht & _). destruct Hp as [-> | ->]; inversion E; subst c; discriminate.
-    + split; [|exact I]. intros _ l E y Hy. exact (H2 l y E Hy).
+    + split; [intros _ l E y Hy; exact (H2 l y E Hy)|]. split; [|exact I].
+      intros (ik & c & a & E & _). destruct Hp as [-> | ->]; inversion E.
 Qed.
 
 Example flat_inhabited :
@@ -739,13 +825,14 @@ Proof.
     assert (Hp : p' = ex_leaf 2 0 None \/ p' = ex_leaf 0 3 None) by (destruct Hin' as [Hin'|[Hin'|[]]]; inversion Hin'; auto).
     split; [exact G1|]. split; [intros _; exact G2|]. split.
     - intros (c & m & E & Ht & _). destruct Hp as [-> | ->]; inversion E; subst c; discriminate.
-    - split; [|exact I]. intros (ik & c & it & E & _). destruct Hp as [-> | ->]; inversion E. }
+    - split; [intros (ik & c & it & E & _); destruct Hp as [-> | ->]; inversion E|]. split; [|exact I].
+      intros (ik & c & a & E & _). destruct Hp as [-> | ->]; inversion E. }
   intros Nk H. cbn [dok]. split; [exact Nk|]. intros k p x Hin Hl. destruct (H k x Hl) as (H1 & H2 & H3).
   assert (Hp : p = ex_refp \/ p = ex_leaf 0 3 None) by (destruct Hin as [Hin|[Hin|[]]]; inversion Hin; auto).
   split; [exact H1|]. split; [intros _; exact H2|]. split.
   - intros (c & m & E & Ht & _). destruct Hp as [-> | ->]; inversion E; subst c; discriminate.
-  - split.
-    + intros (ik & c & it & E & _). destruct Hp as [-> | ->]; inversion E.
+  - split; [intros (ik & c & it & E & _); destruct Hp as [-> | ->]; inversion E|]. split.
+    + intros (ik & c & a & E & _). destruct Hp as [-> | ->]; inversion E.
     + intros kv' ->. destruct (H3 kv' eq_refl) as [Nk' H']. split.
       * intros Hs. exfalso. destruct Hs as (_ & Hty & _). destruct Hp as [-> | ->]; discriminate.
       * intros y d _ Hld. destruct Hp as [-> | ->].
@@ -790,7 +877,7 @@ Proof.
   - intros k [H|[]]. subst. left; reflexivity.
   - vm_compute. repeat constructor. intros [].
   - intros fname kp H. vm_compute in H. destruct H as [H|[]]; inversion H; subst; discriminate.
-  - intros k p [H|[]]; inversion H; subst. left. right. right. right. right. right.
+  - intros k p [H|[]]; inversion H; subst. left. right. right. right. right. right. left.
     exists (mkC [SString] None (Some [JStr [114]%N; JStr [103]%N]) [] 0 0 0 0 None None (mkBounds None None None None) None None), [[114]%N; [103]%N].
     repeat split; try reflexivity; discriminate.
 Qed.
@@ -811,5 +898,45 @@ Proof.
   split; [destruct Hkv as [<-|[<-|[<-|[<-|[]]]]]; vm_compute in Hl; inversion Hl; discriminate|].
   split; [intros (c & E & _ & _ & He & _); inversion E; subst c; discriminate|].
   split; [intros (c & m & E & Ht & _); inversion E; subst c; discriminate|].
-  split; [intros (ik & c & it & E & _); inversion E|exact I].
+  split; [intros (ik & c & it & E & _); inversion E|]. split; [intros (ik & c & a & E & _); inversion E|exact I].
+Qed.
+
+(* ---------- non-vacuity of the map leaf: {labels: map of strings (required)} ---------- *)
+Definition ex_labels : schema := Sch (mkC [SObject] None None [] 0 0 0 0 None None (mkBounds None None None None) None None) [] (Some ex_str_item) false None [] [].
+Definition ex_map_obj : schema :=
+  Sch (mkC [SObject] None None [[108]%N] 0 0 0 0 None None (mkBounds None None None None) None None) [([108]%N, ex_labels)] None false None [] [].
+Definition ex_map_docs : list (list (str * json)) :=
+  [[([108]%N, JObj [([97]%N, JStr [120]%N); ([98]%N, JStr [121]%N)])]; [([108]%N, JObj [([97]%N, JInt 1)])]; [([108]%N, JStr [120]%N)]; [([108]%N, JObj [])]; []].
+
+Lemma ex_map_sobj : sobj (fun s => s) (mkCfg false false) [] [] [] 0 ex_map_obj.
+Proof.
+  cbn [sobj]. repeat split; try reflexivity; try discriminate.
+  - repeat constructor. intros [].
+  - intros k [H|[]]. subst. left; reflexivity.
+  - vm_compute. repeat constructor. intros [].
+  - intros fname kp H. vm_compute in H. destruct H as [H|[]]; inversion H; subst; discriminate.
+  - intros k p [H|[]]; inversion H; subst. left. right. right. right. right. right. right.
+    exists IStr, (mkC [SObject] None None [] 0 0 0 0 None None (mkBounds None None None None) None None), ex_str_item.
+    repeat split; try reflexivity. eexists. repeat split; reflexivity.
+Qed.
+
+Example map_inhabited :
+  exists t b, Gen.gen (fun s => s) (mkCfg false false) [] (fuelG 0 3) MDeclared None false ex_map_obj [82]%N = Done (t, b) /\
+    (forall kv, In kv ex_map_docs ->
+       is_ok (Exec.dec (fun _ _ => true) [] (fuelD 0 0) t (JObj kv)) = Valid.valid (fun _ _ => true) [] (fuelV 0 0) ex_map_obj (JObj kv)) /\
+    map (fun kv => Valid.valid (fun _ _ => true) [] (fuelV 0 0) ex_map_obj (JObj kv)) ex_map_docs = [true; false; false; true; false].
+Proof.
+  eexists. eexists. split; [vm_compute; reflexivity|].
+  assert (Hgen : Gen.gen (fun s => s) (mkCfg false false) [] (fuelG 0 3) MDeclared None false ex_map_obj [82]%N = Done _) by (vm_compute; reflexivity).
+  split; [|vm_compute; reflexivity].
+  intros kv Hkv.
+  eapply (nested_object_exact (fun s => s) (mkCfg false false) [] (fun _ _ => true) [] [] eq_refl eq_refl 0 3 0 0 None false ex_map_obj [82]%N _ _ kv); [discriminate|exact ex_map_sobj| |exact Hgen].
+  cbn [dok]. split; [destruct Hkv as [<-|[<-|[<-|[<-|[<-|[]]]]]]; repeat constructor; cbn; intuition discriminate|].
+  intros k p x Hin Hl. destruct Hin as [Hin|[]]. inversion Hin; subst k p.
+  split; [destruct Hkv as [<-|[<-|[<-|[<-|[<-|[]]]]]]; vm_compute in Hl; inversion Hl; discriminate|].
+  split; [intros (c & E & Ht & _); inversion E; subst c; discriminate|].
+  split; [intros (c & m & E & Ht & _); inversion E; subst c; discriminate|].
+  split; [intros (ik & c & it & E & _); inversion E|].
+  split; [|exact I].
+  intros _ kv0 E y Hy. destruct Hkv as [<-|[<-|[<-|[<-|[<-|[]]]]]]; vm_compute in Hl; inversion Hl as [Hx]; rewrite <- Hx in E; inversion E as [Hk0]; rewrite <- Hk0 in Hy; cbn in Hy; intuition (subst; discriminate).
 Qed.
